@@ -508,26 +508,38 @@ fn par(rep: &mut Report, seed: u64, scale: u64) {
         let mut g = Rng::new(seed.wrapping_mul(9091).wrapping_add(round));
         let hk = *g.pick(&[HKind::Mul, HKind::Low, HKind::Mul]);
         let target = *g.pick(&[0u64, 1, 7, 14, 15, 20, 28, 29, 40, 57, 100, 113, 130, 300, 460, 1000]);
-        let mut m: PM = PM::with_hasher(VBuild { kind: hk, seed: g.below(50) });
+        let hseed = g.below(50);
+        let variant = g.below(4);
+        let rn = g.below(2000) as usize;
+        let rm = g.below(10);
         let mut log = vec![format!("hasher {:?}", hk)];
-        for i in 0..target {
-            m.insert(i * 3, i);
-        }
-        log.push(format!("insert 0,3,..  ({target} keys)"));
-        match g.below(4) {
-            0 => {
-                let n = g.below(2000) as usize;
-                m.reserve(n);
-                log.push(format!("reserve {n}"));
+        // the same construction can be repeated: destinations of par_extend must be mid-resize too,
+        // and a clone never is
+        let build = |log: Option<&mut Vec<String>>| -> PM {
+            let mut m: PM = PM::with_hasher(VBuild { kind: hk, seed: hseed });
+            for i in 0..target {
+                m.insert(i * 3, i);
             }
-            1 => {
-                for i in 0..g.below(10) {
-                    m.remove(&(i * 6));
+            let mut l = vec![format!("insert 0,3,..  ({target} keys)")];
+            match variant {
+                0 => {
+                    m.reserve(rn);
+                    l.push(format!("reserve {rn}"));
                 }
-                log.push("remove a few".into());
+                1 => {
+                    for i in 0..rm {
+                        m.remove(&(i * 6));
+                    }
+                    l.push("remove a few".into());
+                }
+                _ => {}
             }
-            _ => {}
-        }
+            if let Some(log) = log {
+                log.extend(l);
+            }
+            m
+        };
+        let mut m = build(Some(&mut log));
         let split = m.verif_state().old.is_some();
         let seq: BTreeMap<u64, u64> = m.iter().map(|(k, v)| (*k, *v)).collect();
         let maxk = seq.keys().max().copied().unwrap_or(0) as usize + 1;
@@ -558,16 +570,19 @@ fn par(rep: &mut Report, seed: u64, scale: u64) {
                     if vs != wv {
                         problems.push("par_values".into());
                     }
-                    let mut m2 = m.clone();
-                    pool.install(|| m2.par_iter_mut().for_each(|(_, v)| *v += 1));
-                    pool.install(|| m2.par_values_mut().for_each(|v| *v += 1));
-                    if m2.len() != seq.len() || !seq.iter().all(|(k, v)| m2.get(k) == Some(&(v + 2))) {
-                        problems.push("par_iter_mut / par_values_mut did not touch each element exactly once".into());
+                    // mutate the map itself (it may be mid-resize; a clone never is), then undo
+                    pool.install(|| m.par_iter_mut().for_each(|(_, v)| *v += 5));
+                    if m.len() != seq.len() || !seq.iter().all(|(k, v)| m.get(k) == Some(&(v + 5))) {
+                        problems.push("par_iter_mut did not touch each element exactly once".into());
+                    }
+                    pool.install(|| m.par_values_mut().for_each(|v| *v -= 5));
+                    if m.len() != seq.len() || !seq.iter().all(|(k, v)| m.get(k) == Some(v)) {
+                        problems.push("par_values_mut did not touch each element exactly once".into());
                     }
                     // par_extend / from_par_iter
                     let pairs: Vec<(u64, u64)> = (0..(g.below(300))).map(|i| (i * 2, i)).collect();
-                    let mut e1 = m.clone();
-                    let mut e2 = m.clone();
+                    let mut e1 = build(None);
+                    let mut e2 = build(None);
                     pool.install(|| e1.par_extend(pairs.clone()));
                     e2.extend(pairs.clone());
                     if e1 != e2 {
@@ -578,8 +593,8 @@ fn par(rep: &mut Report, seed: u64, scale: u64) {
                     let ndup = 1 + g.below(97) as usize;
                     let modulus = 1 + g.below(7);
                     let dups: Vec<(u64, u64)> = (0..ndup as u64).map(|i| (i % modulus, 1000 + i)).collect();
-                    let mut d1 = m.clone();
-                    let mut d2 = m.clone();
+                    let mut d1 = build(None);
+                    let mut d2 = build(None);
                     pool.install(|| d1.par_extend(dups.clone()));
                     d2.extend(dups.clone());
                     if d1 != d2 {
